@@ -72,8 +72,31 @@ Fixpoint chunks_of (l : list val) : option (list bytes) :=
   | _ => None
   end.
 
+(* bearer family: (sbearer nLIMIT nSENDS sPROPAGATE xSERVER-REPLY-BYTES sSERVER-CLOSES)
+   -> (sDIAL-OK nSESSIONS nAUTH-CALLS-SEEN nOTHER sCLIENT-CLOSED nLATER-POSTDIAL (nSENDONCE nREFUSED) (nHOOK x16)) *)
+Definition run_bearer (limit sends : N) (prop : bool) (reply : bytes) (closes : bool) : val :=
+  let nobody := fun _ : bytes => false in
+  let first := match sends with
+               | 0 => None
+               | _ => match parse limit reply with PFrame f rest => Some (f, rest) | _ => None end
+               end in
+  let '(res, sent) := bearer status_code_simple (N.to_nat sends) prop (option_map fst first) in
+  let ok := match res with DialOk => true | DialFail _ => false end in
+  let loop_buf := match sends, first with 0, _ => [] | _, Some (_, rest) => rest | _, None => [] end in
+  let fin := pump status_code_simple info_dec_simple nobody nobody limit (mkChecker 1 false (fun _ => true))
+                  (mkSt (Running false) loop_buf true false true true []) in
+  let t := if ok then trace fin else [] in
+  VL [vbool ok; VN (if ok && negb closes then 1 else 0); VN (N.of_nat sent); VN 0; vbool true;
+      VN (if ok then 1 else 0);
+      VL [VN sends; VN (if 2 <=? sends then 1 else 0)];
+      VL (hooks_of t)].
+
 Definition run (inp : val) : option val :=
   match inp with
+  | VL [tag; VN limit; VN sends; prop; VB reply; closes] =>
+      if sym_eqb tag "bearer"
+      then Some (run_bearer limit sends (sym_eqb prop "true") reply (sym_eqb closes "true"))
+      else None
   | VL [VN limit; VL [VN recvs; prop; mode; VB token]; VL chunks] =>
       match chunks_of chunks with
       | None => None
